@@ -7,6 +7,8 @@ from gen import constants
 ID = "C12"
 DRIVER = "drv_streams"
 HARNESS = "h_streams"
+QUICK_LEVEL = "thorough"      # the larger case set costs only seconds
+THOROUGH_SEEDS = 4
 GEN = [constants.gen]
 TIE = ['Ufw.Tie.Slip']
 ALPHA = ["c0", "db", "dc", "dd", "41"]
